@@ -564,8 +564,8 @@ pub fn c04(ctx: &Ctx) -> Report {
     let p = &["C04"];
     rep.rule.push("E1: BFS to fixpoint over whole note messages (note-on, both spellings of note-off, All-Notes-Off, foreign-channel traffic, priority and retrigger switches) delivered byte by byte to the real receiver, bounded by K outstanding note-ons; after every message gate(), note_num() and velocity() must equal a Vec-of-outstanding-note-ons reference model; non-trivial = transitions that release a non-last note, repeat a held note, release a note not held, clear >= 2 notes at once or switch priority with >= 2 notes held".into());
     if ctx.tier.is_thorough() {
-        run_m(ctx, &mut rep, 0, main_alphabet(7), "notes {5,64,127} x velocities {1,127}, K=7", p);
-        run_m(ctx, &mut rep, 3, Alphabet { notes: vec![0, 5, 64, 127], vels: vec![100], ..main_alphabet(5) }, "4 notes, K=5", p);
+        run_m(ctx, &mut rep, 0, main_alphabet(8), "notes {5,64,127} x velocities {1,127}, K=8", p);
+        run_m(ctx, &mut rep, 3, Alphabet { notes: vec![0, 5, 64, 127], vels: vec![100], ..main_alphabet(6) }, "4 notes, K=6", p);
         run_m(ctx, &mut rep, 7, Alphabet { notes: vec![60, 61], vels: vec![64], ..main_alphabet(10) }, "2 notes, K=10", p);
         run_m(ctx, &mut rep, 15, Alphabet { notes: vec![60], vels: vec![1, 127], ..main_alphabet(32) }, "1 note up to the documented capacity, K=32", p);
         run_m(ctx, &mut rep, 4, Alphabet { notes: vec![60], vels: vec![100], edge_note: Some(40), ..main_alphabet(32) }, "capacity K=32 with a lower note as oldest / newest entry", p);
@@ -651,7 +651,7 @@ pub fn c05(ctx: &Ctx) -> Report {
     rep.rule.push("E1: BFS to fixpoint over note messages, All-Notes-Off, mode switches and the two self-clearing edge polls as ordinary operations (so a poll occurs at every position and with any number of messages between polls); every poll result must equal the reference latch (rising: set by a note-on that finds the gate low or arrives in retrigger mode, cleared by a gate drop or a read; falling: set by every true->false gate change, cleared by a note-on or a read); non-trivial = polls for which the reference expects true".into());
     let polls = |k: usize| Alphabet { polls: true, ..main_alphabet(k) };
     if ctx.tier.is_thorough() {
-        run_m(ctx, &mut rep, 0, polls(6), "notes {5,64,127} x velocities {1,127}, K=6, with polls", p);
+        run_m(ctx, &mut rep, 0, polls(7), "notes {5,64,127} x velocities {1,127}, K=7, with polls", p);
         run_m(ctx, &mut rep, 9, Alphabet { notes: vec![60, 61], vels: vec![64], ..polls(8) }, "2 notes, K=8, with polls", p);
         run_m(ctx, &mut rep, 15, Alphabet { notes: vec![60], vels: vec![100], ..polls(32) }, "1 note, K=32, with polls", p);
         crate::sr::cross_check_midi(ctx, &mut rep, polls(3), &["C05"]);
